@@ -255,6 +255,32 @@ Definition corr_index_raw (X1 X2 : mat) (n1 n2 : list F) : F :=
   let s1 := sumn r1 (fun i => fabs Op (sub (maxn r2 (fun j => mget c i j)) one)) in
   let s2 := sumn r2 (fun j => fabs Op (sub (maxn r1 (fun i => mget c i j)) one)) in
   mul (div one (nat2F Op (r2 + r1))) (add s1 s2).
+(* ---------- axis given as a TUPLE of integers (accepted by T.mean / T.sum, hence by MSE, RMSE and the reflective
+   correlation; covariance / variance / standard_deviation / correlation index a Python list with it and raise) ---------- *)
+Fixpoint insert_desc (a : nat) (l : list nat) : list nat :=
+  match l with [] => [a] | b :: r => if b <=? a then a :: l else b :: insert_desc a r end.
+Definition sort_desc (l : list nat) : list nat := fold_right insert_desc [] l.
+Fixpoint nodupb (l : list nat) : bool := match l with [] => true | a :: r => negb (existsb (Nat.eqb a) r) && nodupb r end.
+(* every entry normalised NumPy-style; out of range or repeated (after normalisation) axes are rejected *)
+Fixpoint norm_axes_list (zs : list Z) (nd : nat) : res (list nat) :=
+  match zs with
+  | [] => Ok []
+  | z :: r => match norm_axis z nd, norm_axes_list r nd with Ok a, Ok l => Ok (a :: l) | _, _ => Err end
+  end.
+Definition norm_axes (zs : list Z) (nd : nat) : res (list nat) :=
+  match norm_axes_list zs nd with Ok l => if nodupb l then Ok l else Err | Err => Err end.
+(* the reduction runs one axis at a time from the highest axis down (so the lower axis numbers stay valid) *)
+Definition tsum_axes (axs : list nat) (t : tensor F) : tensor F := fold_left (fun acc a => tsum (Some a) acc) (sort_desc axs) t.
+Definition red_len_axes (axs : list nat) (t : tensor F) : nat :=
+  match axs with [] => 1 | a :: r => fold_left (fun acc b => acc * nth b (shape t) 0) r (nth a (shape t) 0) end.
+Definition tmean_axes (axs : list nat) (t : tensor F) : tensor F :=
+  let n := nat2F Op (red_len_axes axs t) in tmap (fun x => div x n) (tsum_axes axs t).
+Definition MSE_axes (axs : list nat) (yt yp : tensor F) : tensor F := tmean_axes axs (tmap fsq (tzip sub yt yp)).
+Definition RMSE_axes (sq : F -> F) (axs : list nat) (yt yp : tensor F) : tensor F := tmap sq (MSE_axes axs yt yp).
+Definition refl_parts_axes (axs : list nat) (yt yp : tensor F) : tensor F * tensor F :=
+  (tsum_axes axs (tzip mul yt yp), tzip mul (tsum_axes axs (tmap fsq yt)) (tsum_axes axs (tmap fsq yp))).
+Definition reflective_correlation_axes (sq : F -> F) (axs : list nat) (yt yp : tensor F) : tensor F :=
+  ratio_parts sq (refl_parts_axes axs yt yp).
 End M.
 
 Arguments mat F : clear implicits. Arguments cmode F : clear implicits.
